@@ -137,6 +137,9 @@ def _opaque_values(c):
                 vals.extend(float(v) for v in f.predict(M.mk_fh(op[1], shift)).to_numpy().ravel())
             elif k == "upd":
                 f.update(M.mk_series(op[1], shift, rng_idx), update_params=op[2])
+            elif k == "up":
+                r = f.update_predict(M.mk_series(op[1], shift, rng_idx), cv=M.mk_cv(op[2]), update_params=op[3])
+                vals.extend(float(v) for v in np.asarray(r.to_numpy(), dtype=float).ravel() if not np.isnan(v))
             elif k == "ups":
                 vals.extend(float(v) for v in f.update_predict_single(M.mk_series(op[1], shift, rng_idx), fh=M.mk_fh(op[2], shift), update_params=op[3]).to_numpy().ravel())
         except Exception:
@@ -163,6 +166,8 @@ def _opaque_nonfinite(c):
                     return "non-finite forecast %r for finite data" % list(p.to_numpy())
             elif k == "upd":
                 f.update(M.mk_series(op[1], shift, rng_idx), update_params=op[2])
+            elif k == "up":
+                f.update_predict(M.mk_series(op[1], shift, rng_idx), cv=M.mk_cv(op[2]), update_params=op[3])
             elif k == "ups":
                 p = f.update_predict_single(M.mk_series(op[1], shift, rng_idx), fh=M.mk_fh(op[2], shift), update_params=op[3])
                 if not np.all(np.isfinite(p.to_numpy())):
@@ -206,6 +211,7 @@ def _history(rng, core, mode, long=False):
     stored_oos = fit_fh is not None
     ops = [["fit", y0, fit_fh]]
     nops = rng.randrange(1, 7 if long else 5)
+    after_up = False     # non-window forecasters store the splitter's horizon during update_predict: ask explicitly afterwards
     for _i in range(nops):
         r = rng.random()
         if r < 0.4:
@@ -214,11 +220,11 @@ def _history(rng, core, mode, long=False):
             else:
                 kind = "oos" if opq or rng.random() < 0.7 else rng.choice(["mixed", "ins"])
                 # opaque forecasters: an absolute horizon only in the last op (it would turn in-sample after updates)
-                fh = None if rng.random() < 0.25 else M.rand_fh(rng, kind, cutoff if (not opq or _i == nops - 1) else None, maxh)
+                fh = None if (rng.random() < 0.25 and not (opq and after_up)) else M.rand_fh(rng, kind, cutoff if (not opq or _i == nops - 1) else None, maxh)
                 if fh is not None:
                     stored_oos = kind == "oos"
             ops.append(["pred", fh])
-        elif r < 0.75 or opq:
+        elif r < 0.75 or (opq and (r < 0.88 or mode == "r" or fit_fh is None or fit_fh[0] != "r")):
             ov = rng.random()
             if ov < 0.7 or opq:
                 st = cutoff + 1 - (rng.randrange(0, 2) if opq else 0)
@@ -232,7 +238,7 @@ def _history(rng, core, mode, long=False):
             if rng.random() < 0.75:
                 ops.append(["upd", batch, upd])
             else:
-                fh = None if (mode == "r" or rng.random() < 0.3) else M.rand_fh(rng, "oos", None, maxh)
+                fh = None if (mode == "r" or (rng.random() < 0.3 and not (opq and after_up))) else M.rand_fh(rng, "oos", None, maxh)
                 if fh is not None:
                     stored_oos = True
                 ops.append(["ups", batch, fh, upd])
@@ -244,7 +250,15 @@ def _history(rng, core, mode, long=False):
             explicit = [rng.choice(["s", "e"]), sorted(rng.sample(range(1, 4), rng.choice([1, 1, 2]))),
                         rng.randrange(1, 4), rng.randrange(1, 3), None, rng.random() < 0.5]
             cv = explicit if (not stored_oos or rng.random() < 0.5) else None
-            ops.append(["up", batch, cv, rng.random() < 0.3])
+            if opq:
+                # composites: explicit splitter with the horizon they were fitted with, full first window
+                m = rng.randrange(4, 9)
+                batch = M.stretch(rng, cutoff + 1, m, 0.0, True, 0.0)
+                cv = [rng.choice(["s", "e"]), list(fit_fh[1]), rng.randrange(1, 3), 1, None, True]
+                # the windows fed are positions 0..m-1-max(fh): later batches continue right after the last fed label
+                cutoff = batch[m - 1 - max(fit_fh[1])][0]
+                after_up = True
+            ops.append(["up", batch, cv, (rng.random() < 0.3) and not opq])
     if opq and not any(o[0] in ("upd", "ups") for o in ops):
         ops.append(["upd", M.stretch(rng, cutoff + 1, rng.randrange(2, 5), 0.0, True, 0.0), rng.random() < 0.4])
     if opq and ops[-1][0] != "pred":
